@@ -203,6 +203,14 @@ def declare_model(b):
     if sp.get("rhs_order"):
         rank = {n: i for i, n in enumerate(sp["rhs_order"])}
         states.sort(key=lambda s: rank.get(s["name"], len(rank)))
+    concat = sp.get("rhs_concat") or []
+    if len(concat) == 2 and all(sp.get("rhs", {}).get(n) is not None for n in concat) and \
+            not any(s.get("der_scale") is not None for s in states if s["name"] in concat):
+        import casadi as ca
+        lhs = ca.vertcat(*[b.syms[n] for n in concat])
+        rhs_c = ca.vertcat(*[b.ca_mat(sp["rhs"][n]) for n in concat])
+        (st.set_next if dyn == "next" else st.set_der)(lhs, rhs_c)
+        states = [s for s in states if s["name"] not in concat]
     for s in states:
         rhs = sp.get("rhs", {}).get(s["name"])
         if rhs is None:
